@@ -65,8 +65,13 @@ fn intact(ptr: *mut u8, n: usize, tag: u8) -> bool {
     (0..n).all(|i| unsafe { *ptr.add(i) } == tag)
 }
 
+/// Alignment of every layout of the current exploration (set by `run`): with an alignment of 8 the
+/// sizes 1, L/2 +- ... are not multiples of it, so rounding a charge up to the alignment shows.
+static ALIGN: std::sync::atomic::AtomicUsize = std::sync::atomic::AtomicUsize::new(1);
+const ALIGNS: [usize; 2] = [1, 8];
+
 fn layout(size: usize) -> Layout {
-    Layout::from_size_align(size, 1).unwrap()
+    Layout::from_size_align(size, ALIGN.load(std::sync::atomic::Ordering::Relaxed)).unwrap()
 }
 
 /// Replays `hist` on a fresh real allocator and on the model.  Returns the model after the
@@ -226,7 +231,7 @@ impl Space for C19 {
         Meta {
             id: "C19",
             level: "model_checking",
-            rule: format!("sequential half: breadth-first explicit-state search over operation histories of the real rink_sandbox::Alloc to depth {} for initial limits 64, 100 and usize::MAX; alphabet alloc/alloc_zeroed of sizes {{1, 8, L/2, L, L+1}} (for the unlimited allocator {{1, 8, 4096, a size the parent allocator refuses}}), realloc of a live block to each size, dealloc, reset_max, set_limit; state = (sorted multiset of live sizes, peak since reset, limit), merged states have equal futures because the allocator reads only used/max/limit; every transition replays the representative history + the op on a fresh real allocator and compares with an integer byte counter: success only within the limit (and required when even the transient charge fits), refused ops leave usage and block contents unchanged, zeroed memory is zero, realloc keeps the common prefix, get_max() >= model peak, reset_max()+get_max() == model usage (read on a second replay). The concurrent half (loom) is run by the same check command and adds its schedules to the evidence", self.depth),
+            rule: format!("sequential half: breadth-first explicit-state search over operation histories of the real rink_sandbox::Alloc to depth {} for initial limits 64, 100 and usize::MAX, each with byte-aligned and with 8-aligned layouts (sizes that are not multiples of the alignment); alphabet alloc/alloc_zeroed of sizes {{1, 8, L/2, L, L+1}} (for the unlimited allocator {{1, 8, 4096, a size the parent allocator refuses}}), realloc of a live block to each size, dealloc, reset_max, set_limit; state = (sorted multiset of live sizes, peak since reset, limit), merged states have equal futures because the allocator reads only used/max/limit; every transition replays the representative history + the op on a fresh real allocator and compares with an integer byte counter: success only within the limit (and required when even the transient charge fits), refused ops leave usage and block contents unchanged, zeroed memory is zero, realloc keeps the common prefix, get_max() >= model peak, reset_max()+get_max() == model usage (read on a second replay). The concurrent half (loom) is run by the same check command and adds its schedules to the evidence", self.depth),
             assumptions: vec![
                 "an allocation of at most 1 MiB that fits the limit must succeed (the system allocator does not fail for such sizes)".into(),
                 "realloc may refuse when only the transient old+new charge exceeds the limit (the statement says 'only if')".into(),
@@ -236,10 +241,11 @@ impl Space for C19 {
         }
     }
     fn len(&self) -> u64 {
-        LIMITS.len() as u64
+        (LIMITS.len() * ALIGNS.len()) as u64
     }
     fn describe(&self, idx: u64) -> String {
-        format!("BFS over allocator histories to depth {} from Alloc::new({})", self.depth, if LIMITS[idx as usize] == usize::MAX { "usize::MAX".to_string() } else { LIMITS[idx as usize].to_string() })
+        let l = LIMITS[idx as usize % LIMITS.len()];
+        format!("BFS over allocator histories to depth {} from Alloc::new({}), layouts aligned to {}", self.depth, if l == usize::MAX { "usize::MAX".to_string() } else { l.to_string() }, ALIGNS[idx as usize / LIMITS.len()])
     }
     fn sample_indices(&self) -> Vec<u64> {
         vec![0, 1, 2]
@@ -260,7 +266,9 @@ impl Space for C19 {
         })
     }
     fn run(&mut self, idx: u64) -> CaseOut {
-        let limit0 = LIMITS[idx as usize];
+        let limit0 = LIMITS[idx as usize % LIMITS.len()];
+        let align = ALIGNS[idx as usize / LIMITS.len()];
+        ALIGN.store(align, std::sync::atomic::Ordering::Relaxed);
         let mut seen: HashMap<(Vec<usize>, usize, usize), Vec<Op>> = HashMap::new();
         let mut queue: VecDeque<Vec<Op>> = VecDeque::new();
         let (m0, _, _) = replay(limit0, &[], false);
@@ -305,7 +313,7 @@ impl Space for C19 {
                 }
             }
         }
-        out.keys = seen.keys().map(|k| hash64(&(limit0, k))).collect();
+        out.keys = seen.keys().map(|k| hash64(&(limit0, align, k))).collect();
         out.count("transitions", transitions).count("refusals", refusals)
     }
 }
